@@ -83,12 +83,20 @@ impl CBORTaggedDecodable for Envelope {
                     #[cfg(feature = "encrypt")]
                     tags::TAG_ENCRYPTED => {
                         let encrypted = EncryptedMessage::from_untagged_cbor(item.clone())?;
+                        // Accept only the canonical form: anything the component's
+                        // decoder tolerated but would not write back is rejected.
+                        if encrypted.untagged_cbor() != *item {
+                            bail!("non-canonical encrypted element")
+                        }
                         let envelope = Self::new_with_encrypted(encrypted)?;
                         Ok(envelope)
                     },
                     #[cfg(feature = "compress")]
                     tags::TAG_COMPRESSED => {
                         let compressed = Compressed::from_untagged_cbor(item.clone())?;
+                        if compressed.untagged_cbor() != *item {
+                            bail!("non-canonical compressed element")
+                        }
                         let envelope = Self::new_with_compressed(compressed)?;
                         Ok(envelope)
                     },
